@@ -20,14 +20,14 @@ def queries(tier):
     k = 5 if tier == 'quick' else 8
     k3 = 4 if tier == 'quick' else 6
     qs = [
-        Query('hist_class_info_k%d' % k, 'c18_list.cpp', {'MODE': 1, 'VK': k}, unwind=7, checks='memory', timeout=3000,
+        Query('hist_class_info_k%d' % k, 'c18_list.cpp', {'MODE': 1, 'VK': k}, unwind=k + 2, checks='memory', timeout=3000,
               desc='static_list<class_info>: every history of %d push/remove/clear operations over 4 nodes vs array model' % k,
-              symbolic='operation kind and node of each of the %d steps' % k, bounds={'steps': k, 'nodes': 4, 'unwind': 7}),
+              symbolic='operation kind and node of each of the %d steps' % k, bounds={'steps': k, 'nodes': 4, 'unwind': k + 2}),
         Query('inductive_step', 'c18_list.cpp', {'MODE': 2}, unwind=7, checks='memory', covers=(999, 901, 902), timeout=3000,
               desc='static_list<Node>: one arbitrary operation from an arbitrary well-formed list (length, order symbolic); '
                    'representation invariant re-established, so the step composes to histories of any length',
               symbolic='pre-state list length and node order, operation, node', bounds={'nodes': 4, 'unwind': 7}),
-        Query('registration_objects_k%d' % k3, 'c18_list.cpp', {'MODE': 3, 'VK': k3}, unwind=7, checks='memory', timeout=3000,
+        Query('registration_objects_k%d' % k3, 'c18_list.cpp', {'MODE': 3, 'VK': k3}, unwind=k3 + 3, checks='memory', timeout=3000,
               desc='constructor/destructor driven registration: class_declaration_aux, method<> instances, definition_info '
                    'destructor, add_function idempotence; %d symbolic construct/destroy steps' % k3,
               symbolic='kind, slot and ctor/dtor choice of each step', bounds={'steps': k3, 'unwind': 7}),
